@@ -156,14 +156,14 @@ var properties = map[string]propSpec{
 	},
 	"C15": {
 		Bounds: [2]map[string]any{
-			{"numbers": "all 144 pairs of the 12 Go numeric types, any integer that float64 represents exactly, up to 2^63 / 2^64 (narrow types: every bit pattern), float32 multiples of 1/4 up to 2^22, any finite float64", "strings": "any byte strings ≤2 bytes", "number×string": "integers and halves in -3..12.5 against any string ≤2 bytes over [0-9.-a]; float32/float64 quarters and tenths (non-dyadic float32 included), int32, int64, uint16 in -12..11 against any string ≤2 bytes over {0 1 2 9 . -}, against the number's own text and that text extended by one digit"},
+			{"numbers": "all 144 pairs of the 12 Go numeric types, any integer that float64 represents exactly, up to 2^63 / 2^64 (narrow types: every bit pattern), any finite float32, any finite float64", "strings": "any byte strings ≤2 bytes", "number×string": "integers and halves in -3..12.5 against any string ≤2 bytes over [0-9.-a]; float32/float64 quarters and tenths (non-dyadic float32 included), int32, int64, uint16 in -12..11 against any string ≤2 bytes over {0 1 2 9 . -}, against the number's own text and that text extended by one digit"},
 			{"numbers": "same", "strings": "≤3 bytes", "number×string": "same over [0-9.-]"},
 		},
 		Outside: []string{"integers that float64 does not represent exactly", "NaN"},
 	},
 	"C16": {
 		Bounds: [2]map[string]any{
-			{"string arguments": "every byte string ≤3 over {' \\ - # blank a \" ; / * NUL 0xC3}", "scalars": "int64 -11..11 and 7 values at the limits (MinInt64, MaxInt64, ±2^53±1, 2^62), 15 float64 values (MaxFloat64, smallest subnormal, 1e±300, 0.1), booleans, NULL × 3 syntactic positions", "templates": "'SELECT '+t+' FROM x' for every t ≤4 bytes over {$ 1 ' \" ` - / * # newline blank a \\}", "argument accounting": "missing, unused, $0, repeated", "two placeholders": "two string arguments ≤2 bytes each in three positions"},
+			{"string arguments": "every byte string ≤3 over {' \\ - # blank a \" ; / * NUL 0xC3}", "scalars": "int64 -11..11 and 7 values at the limits (MinInt64, MaxInt64, ±2^53±1, 2^62), 15 float64 values (MaxFloat64, smallest subnormal, 1e±300, 0.1), booleans, NULL × 3 syntactic positions", "templates": "'SELECT '+t+' FROM x' for every t ≤4 bytes over {$ 1 ' \" ` - / * # newline blank a \\}", "comments": "/*body*/$1 for every body ≤3 bytes over {* / blank quote $ 1}", "argument accounting": "missing, unused, $0, repeated, placeholder numbers beyond the integer range", "two placeholders": "two string arguments ≤2 bytes each in three positions"},
 			{"string arguments": "≤4 bytes", "scalars": "same", "templates": "≤5 bytes", "argument accounting": "same"},
 		},
 		Outside: []string{"[]byte and time.Time arguments", "the parser and tokenizer run natively on each concretised text: a symbolic query text is concretised byte by byte (bounded enumeration by the solver)"},
